@@ -257,6 +257,11 @@ func check(prop, tier string) int {
 	rdir := filepath.Join(vd, "replays", prop)
 	var lines []string
 	seenSig := map[string]bool{}
+	sigCount := map[string]int{}
+	sigTotal := map[string]int{}
+	for _, v := range fresh {
+		sigTotal[v.Signature]++
+	}
 	for _, v := range fresh {
 		if seenSig[v.Signature] && len(lines) >= 20 {
 			continue
@@ -271,10 +276,19 @@ func check(prop, tier string) int {
 		}, "", " ")
 		os.WriteFile(path, b, 0666)
 		lines = append(lines, fmt.Sprintf("VIOLATION property=%s replay=%s", prop, path))
-		fmt.Fprintf(os.Stderr, "violation: %s | %s | key=%s\n", v.Signature, v.Desc, v.Key)
-		for _, d := range v.Detail {
-			fmt.Fprintln(os.Stderr, "    "+d)
+		sigCount[v.Signature]++
+		if sigCount[v.Signature] <= 2 {
+			fmt.Fprintf(os.Stderr, "violation: %s | %s | key=%s\n", v.Signature, v.Desc, v.Key)
+			for _, d := range v.Detail {
+				if len(d) > 600 {
+					d = d[:600] + "…"
+				}
+				fmt.Fprintln(os.Stderr, "    "+d)
+			}
 		}
+	}
+	for sg, n := range sigTotal {
+		fmt.Fprintf(os.Stderr, "violation signature %s: %d occurrences in total\n", sg, n)
 	}
 	var kids []string
 	for id := range known {
